@@ -50,7 +50,10 @@ def truncation_cases(tier, rng, prefix_id, n_streams, cuts_per):
         while len(cuts) < cuts_per: cuts.add(rng.randrange(0, len(data) + 1))
         cuts = sorted(c for c in cuts if 0 <= c <= len(data))
         if len(data) > 20000:
-            cuts = [c for c in cuts if c > len(data) - 3 or c % W < 3 or c % W > W - 3 or rng.random() < 0.5][:cuts_per]
+            # (each case carries the prefix in its script: the long streams get the window boundaries and at most 60 further cuts)
+            edge = [c for c in cuts if c > len(data) - 3 or c % W < 3 or c % W > W - 3]
+            rest = [c for c in cuts if c not in set(edge)]
+            cuts = sorted(edge + rng.sample(rest, min(len(rest), 60 if cuts_per > 60 else cuts_per // 2)))
         for c in cuts:
             script, expect = ["D new %s %s" % ("ss" if c % 2 else "fs", data[:c].hex() or "-")], ["ok"]
             for it, e in zip(items, ends):
@@ -94,7 +97,7 @@ def gen_cases(tier, rng):
     if tier == "quick":
         cases += truncation_cases(tier, rng, "t", 6, 40)
     else:
-        cases += truncation_cases(tier, rng, "t", 40, 400)
+        cases += truncation_cases(tier, rng, "t", 30, 300)
     return cases
 
 def file_cut_cases(ctx, tier, rng):
